@@ -25,14 +25,18 @@ import (
 type TxStore struct {
 	*storage.MemoryStore // clients, users, issuer keys only
 
-	mu  sync.Mutex
-	tb  txTables
-	snp *txTables // non-nil while a transaction is open
-	tok *int      // identity of the open transaction, carried by the context BeginTX returns
+	mu       sync.Mutex
+	tb       txTables
+	snp      *txTables // non-nil while a transaction is open
+	inRotate bool      // RotateRefreshToken is running its two primitive steps
+	tok      *int      // identity of the open transaction, carried by the context BeginTX returns
 	// TxErrors counts protocol errors (commit/rollback without begin or with a foreign context, nested begin).
 	TxErrors []string
 	// CtxErrors lists writes issued while a transaction was open with a context that does not carry it.
 	CtxErrors []string
+	// NotFoundOnEmptyRevoke: RevokeAccessToken / RevokeRefreshToken answer fosite.ErrNotFound when no row of the request
+	// id exists (what SQL-backed stores do; every caller in fosite tolerates it).
+	NotFoundOnEmptyRevoke bool
 }
 
 type txCode struct {
@@ -354,12 +358,35 @@ func (s *TxStore) RevokeAccessToken(ctx context.Context, requestID string) error
 	s.mu.Lock()
 	defer s.mu.Unlock()
 	s.noteCtx(ctx, "RevokeAccessToken")
+	n := 0
 	for k, v := range s.tb.access {
 		if v.ID == requestID {
 			delete(s.tb.access, k)
+			n++
 		}
 	}
+	if n == 0 && s.NotFoundOnEmptyRevoke && !s.inRotate {
+		return fosite.ErrNotFound
+	}
 	return nil
+}
+
+// PruneExpiredAccessTokens is the store's housekeeping: access-token rows whose own expiry has passed are removed
+// (they are inactive anyway). Returns how many rows went.
+func (s *TxStore) PruneExpiredAccessTokens(now time.Time) int {
+	s.mu.Lock()
+	defer s.mu.Unlock()
+	n := 0
+	for k, v := range s.tb.access {
+		if v.Session == nil {
+			continue
+		}
+		if exp := v.Session.GetExpiresAt(fosite.AccessToken); !exp.IsZero() && exp.Before(now) {
+			delete(s.tb.access, k)
+			n++
+		}
+	}
+	return n
 }
 
 // ---- refresh tokens
@@ -397,16 +424,25 @@ func (s *TxStore) RevokeRefreshToken(ctx context.Context, requestID string) erro
 	s.mu.Lock()
 	defer s.mu.Unlock()
 	s.noteCtx(ctx, "RevokeRefreshToken")
+	n := 0
 	for k, v := range s.tb.refresh {
 		if v.req.ID == requestID {
 			v.active = false
 			s.tb.refresh[k] = v
+			n++
 		}
+	}
+	if n == 0 && s.NotFoundOnEmptyRevoke && !s.inRotate {
+		return fosite.ErrNotFound
 	}
 	return nil
 }
 
 func (s *TxStore) RotateRefreshToken(ctx context.Context, requestID, _ string) error {
+	s.mu.Lock()
+	s.inRotate = true
+	s.mu.Unlock()
+	defer func() { s.mu.Lock(); s.inRotate = false; s.mu.Unlock() }()
 	if err := s.RevokeRefreshToken(ctx, requestID); err != nil {
 		return err
 	}
